@@ -44,6 +44,25 @@ PROCS = 12
 # ---------------------------------------------------------------------------
 # trace abstraction
 
+def _until_release(events, pos, th, lock):
+  """the events after position pos up to (excluding) thread th's next release of the lock"""
+  out = []
+  for e in events[pos + 1:]:
+    if e[0] == th and e[1] == 'rel' and e[2] is lock:
+      break
+    out.append(e)
+  return out
+
+
+def _until_next_acquire(events, pos, th, lock):
+  out = []
+  for e in events[pos + 1:]:
+    if e[0] == th and e[1] == 'acq' and e[2] is lock:
+      break
+    out.append(e)
+  return out
+
+
 def _abstract(events, lock, wset, watcher_threads):
   """event log -> (tokens, event-index map).  events: (thread, op, obj, extra)."""
   idx = {}            # id(event object) -> watcher index
@@ -59,6 +78,7 @@ def _abstract(events, lock, wset, watcher_threads):
       ncalls[th] = ncalls.get(th, 0) + 1
   ncalls = {}
   updaters = {}
+  in_cs = {}
   toks = []
   n = len(events)
   for pos, (th, op, obj, extra) in enumerate(events):
@@ -91,31 +111,45 @@ def _abstract(events, lock, wset, watcher_threads):
       toks.append('um:%d' % u)
     elif op == 'acq' and obj is lock:
       toks.append('ua:%d' % u)
+      in_cs[th] = {'emitted': False}
     elif op == 'rel' and obj is lock:
       toks.append('ur:%d' % u)
-    elif op == 'wclear' and obj is wset:
-      toks.append('uc:%d' % u)
-    elif op == 'witer' and obj is wset:
-      toks.append(('us', u, pos))
+      in_cs.pop(th, None)
+    elif op in ('wclear', 'witer') and obj is wset:
+      # inside one critical section of the lock nobody can observe the order of "set every registered event" and
+      # "clear the set" (registration needs the lock, waiting on an event does not look at the set): the pair is
+      # reported once, in canonical order, at the first of the two; which events were set is collected up to the release
+      cs = in_cs.get(th)
+      if cs is None:
+        toks.append('uc:%d' % u if op == 'wclear' else ('us', u, pos, th))
+      elif not cs['emitted']:
+        cs['emitted'] = True
+        toks.append(('us', u, pos, th))
+        if any(th2 == th and op2 == 'wclear' and obj2 is wset for (th2, op2, obj2, e2) in _until_release(events, pos, th, lock)):
+          toks.append('uc:%d' % u)
     elif op == 'wadd' and obj is wset:
       toks.append('wd:999')
-  # resolve the set-lists: events set by that thread between its witer and its next wclear / rel / witer
+  # resolve the set-lists: events set by that thread inside that critical section
   out = []
-  rev_threads = {v: k for k, v in updaters.items()}
   for t in toks:
     if not isinstance(t, tuple):
       out.append(t)
       continue
-    _, u, pos = t
-    th = rev_threads[u]
-    sets = []
-    for (th2, op, obj, extra) in events[pos + 1:]:
-      if th2 != th:
-        continue
-      if op in ('wclear', 'witer') or (op == 'rel' and obj is lock):
+    _, u, pos, th = t
+    # the critical section started at the thread's last acquire before pos
+    start = pos
+    for j in range(pos, -1, -1):
+      if events[j][0] == th and events[j][1] == 'acq' and events[j][2] is lock:
+        start = j
         break
-      if op == 'set':
-        sets.append(idx.get(id(obj), 998))
+    # (events set right after the release, before the thread next takes the lock, belong to the same notification)
+    window = _until_next_acquire(events, start, th, lock)
+    mine = set()
+    for (th2, op, obj, extra) in _until_release(events, start, th, lock):
+      if th2 == th and op == 'witer' and obj is wset:
+        mine.update(id(x) for x in (extra or ()))
+    sets = [idx.get(id(obj), 998) for (th2, op, obj, extra) in window
+            if th2 == th and op == 'set' and (id(obj) in mine or id(obj) in idx)]
     out.append('us:%d:%s' % (u, ','.join(str(x) for x in sorted(sets)) or '-'))
   return out, idx, len(call_idx)
 
